@@ -142,10 +142,18 @@ def oracle(cfg, xs, shape=None, stats=None):
   # ---- idempotence -------------------------------------------------------
   if y2 is not None:
     bad = y2.astype(np.float64) != y64
-    if bad.any():
-      i = pick(bad)
-      fails.append(("idempotent", dict(base, clause="idempotent"),
-                    "x=%r q(x)=%r q(q(x))=%r" % (xs[i], y[i], y2[i]), one(i)))
+    if m["sign"]:
+      # 1-bit sign modes: inputs below the float32 resolution of the shifted
+      # argument are bucketed apart, so a failure anywhere else is not hidden
+      tn = (x64 < 0) & (np.abs(x64) <= 2.0 ** -21 * ui)
+      parts = [(bad & tn, {"region": "tiny_negative"}), (bad & ~tn, {"region": "regular"})]
+    else:
+      parts = [(bad, {})]
+    for bmask, extra in parts:
+      if bmask.any():
+        i = pick(bmask)
+        fails.append(("idempotent", dict(base, clause="idempotent", **extra),
+                      "x=%r q(x)=%r q(q(x))=%r" % (xs[i], y[i], y2[i]), one(i)))
     if stats is not None:
       stats["idempotence_checked"] = True
   return fails
